@@ -501,7 +501,7 @@ type harness struct {
 	shapes sync.Map
 
 	evals, nontrivial, nilDiffs, literal, sliceable, mapping, noEditNonNil atomic.Int64
-	outOfScope, limitHit, noneEntries, violatingPairs                 atomic.Int64
+	outOfScope, limitHit, noneEntries, violatingPairs                      atomic.Int64
 }
 
 func (h *harness) report(f finding, rank uint64, a, b starlark.Value, exprA, exprB, fam string, d diff.ValueDiff, hit bool) {
@@ -705,7 +705,7 @@ func main() {
 		for sig, v := range h.viol {
 			r.Violation(sig, v.what, v.replay)
 		}
-		r.Evidence = ""
+		r.Evidence, r.Replays = "", "" // a replay neither replaces the evidence nor the recorded case
 		r.Finish(vlib.Coverage{Evaluations: 1, States: 1, Transitions: 1, Rule: "replay of one recorded pair"})
 	}
 
